@@ -36,12 +36,26 @@ parentheses must give the same table; every member value's underlying bytes must
 element, bit-field; interpreted / compiled / aligned; both endiannesses; 11 underlying types and the default type - to an object equal
 to exactly the members declared with that value, named like one of them, that dumps back to the bytes; Lean fold correspondence.
 Excluded there (reported): `/` and `%` with a negative operand - the library floors where C truncates (see harness/v8_c12.py).
+
+Layout-twin probes (harness/v9_c12.py) for "the integer value is exactly the underlying integer that was read ... dumping writes that
+integer back through the underlying type ... any underlying integer type x scalars, arrays and bit-fields": enum and flag classes over
+EVERY integer type - the 8 power-of-two types, int24/uint24/int48/uint48/int128/uint128 (alignment != size), alias spellings (`short`,
+`unsigned long long`, `DWORD`, ...), typedefs of them, custom integer types registered with `add_custom_type(name, Int, size, alignment)`,
+the default type; used directly or through `typedef E E_t;` - as members (scalar, 1-d / 2-d array, bit-field group, inside a nested
+anonymous struct/union) of a structure or union S between plain members, next to its TWIN P that holds the underlying types instead.
+Both are defined in all four configurations packed/aligned x interpreted/compiled, either endianness, through `load`, two `load` calls,
+`loadfile` or `load` + `add_field`, and parsed through every read entry point (class call with bytes / bytearray / memoryview / BytesIO /
+real file, `.read`, `.reads`).  The enum class must advertise the size and alignment of its underlying type; S and P must have the same
+size, alignment and offsets (= C's layout rule computed in the harness where C decides); every enum leaf must be an instance of its
+class whose value is the integer P reads at that place = `int.from_bytes` of the data at the C offset, named like the member it
+equals; both must dump to the same bytes with the data bytes at every leaf's place; a structure rebuilt from the parsed fields dumps
+alike; the Lean model's layout / read / write of the structure with `(enum T)` members must agree (correspondence).
 """
 from __future__ import annotations
 
 import re
 
-from .. import common, impl, t3_c12, v4_c12, v8_c12
+from .. import common, impl, t3_c12, v4_c12, v8_c12, v9_c12
 from ..common import A, Case, Result, mkrng, parse_sexp, run_driver, sx
 
 BASES = {"uint8": (1, False), "int8": (1, True), "uint16": (2, False), "int16": (2, True), "uint32": (4, False), "int32": (4, True),
@@ -115,7 +129,15 @@ def run(env) -> Result:
                 "the C grammar (cross-checked against a table-driven evaluator, Python's grammar and oracle_numbering) = table of the same "
                 "declaration with C's grouping in parentheses = Lean fold; every member value parses (scalar, E(int), struct field, array "
                 "element, bit-field; interpreted/compiled/aligned) to an object equal to exactly its members, named like one, dumping back "
-                "to the bytes; excluded: / and % with a negative operand (library floors, C truncates). "
+                "to the bytes; excluded: / and % with a negative operand (library floors, C truncates); "
+                "enum/flag classes over every integer type (power-of-two types, int24/48/128 and unsigned, alias spellings, typedefs, custom "
+                "integer types with their own alignment, default type; via typedef of the class) as scalar / 1-d / 2-d array / bit-field "
+                "group / nested struct-or-union members of a structure or union between plain members, against the twin structure holding the "
+                "underlying types, packed and aligned x interpreted and compiled x both endiannesses, defined by load / two loads / loadfile / "
+                "add_field, parsed through 8 read entry points: class size/alignment = underlying type's; same size, alignment, offsets as the "
+                "twin = C layout computed in the harness; every enum leaf an instance with the value the twin reads = int.from_bytes at the C "
+                "offset, named like its member; dumps identical to the twin's with the data bytes at every leaf; rebuilt structure dumps "
+                "alike; Lean model layout/read/write of the structure (correspondence). "
                 "distinct = (declaration, value); non-trivial = >= 2 members")
     dc = impl.dc()
     rnd = mkrng(env["seed"], "c12")
@@ -214,6 +236,8 @@ def run(env) -> Result:
     v4_c12.shadow_probes(mkrng(env["seed"], "c12-shadow"), res, viol, dc, tier, oracle_numbering, lines, metas)
     # initialisers that mix operators of different precedence without parentheses: the C grammar decides the value (own PRNG stream)
     v8_c12.opmix_probes(mkrng(env["seed"], "c12-opmix"), res, viol, dc, tier, oracle_numbering, lines, metas)
+    # enums/flags over every integer type inside structures, next to the twin structure with the underlying types (own PRNG stream)
+    v9_c12.layout_probes(mkrng(env["seed"], "c12-layout"), res, viol, dc, tier, oracle_numbering, env)
     # cross-class comparisons: never equal, whatever the kinds and values
     for _ in range(200 if tier == "quick" else 3000):
         (E1, f1, b1, _, i1), (E2, f2, b2, _, i2) = rnd.sample(classes, 2) if len(classes) >= 2 else (classes[0], classes[0])
